@@ -11,7 +11,7 @@ import z3
 
 from .values import *
 from . import mirparse
-from .mirparse import split_top
+from .mirparse import split_top, parse_operand
 
 sys.setrecursionlimit(20000)
 
@@ -592,7 +592,11 @@ class Interp:
                 elif k == 'call':
                     _, dst, callee, args_, ret = st
                     argv = [self.operand(body, loc, a) for a in args_]
-                    res = self.call(callee, argv, body, loc)
+                    if re.match(r'(?:move|copy) \(?\*?_\d', callee):
+                        # call through a local: fn pointer / closure value held in a variable
+                        res = self.call_value(self.operand(body, loc, parse_operand(callee)), argv)
+                    else:
+                        res = self.call(callee, argv, body, loc)
                     if ret is None:
                         raise RustPanic(f'diverging call returned: {callee}')
                     self.place_ref(body, loc, dst).set(res)
